@@ -125,6 +125,18 @@ def seg_bytes(seg):
                 if b[i] == b[i - 1]:
                     b[i] = (b[i] + 1) % 256
         return bytes(b)
+    if k == "fillx":        # ("fillx", n, seed, a, b): no equal neighbours, never the byte values a or b
+        r = random.Random(seg[2])
+        vals = [v for v in range(256) if v != seg[3] and v != seg[4]]
+        out = bytearray()
+        last = -1
+        for _ in range(seg[1]):
+            v = r.choice(vals)
+            while v == last:
+                v = r.choice(vals)
+            out.append(v)
+            last = v
+        return bytes(out)
     if k == "lit":          # ("lit", hexstring)
         return bytes.fromhex(seg[1])
     raise ValueError(seg)
